@@ -53,11 +53,16 @@ def _net(n_in, n_out):
     return _DECOY_NET[k]
 
 
-def decoys():
-    """construct and use one instance of every closed-form condition class, with parameters unlike any used by the checks"""
+def decoys(like=None):
+    """construct and use one instance of every closed-form condition class, with parameters unlike any used by the checks;
+    `like`: a coordinate of the call under test - the decoys are evaluated on batches of the same layout (shape, dtype)"""
     import neurodiffeq.conditions as C
     STATE['decoy_rounds'] += 1
-    col = lambda *v: torch.tensor([[float(a)] for a in v], requires_grad=True)
+    if like is not None and torch.is_tensor(like) and like.dim() == 2 and like.shape[0] >= 1:
+        base = torch.linspace(0.11, 0.52, like.shape[0], dtype=like.dtype).reshape(-1, 1)
+        col = lambda *v: (base + float(v[0]) - 0.11).clone().requires_grad_(True)
+    else:
+        col = lambda *v: torch.tensor([[float(a)] for a in v], requires_grad=True)
     t = col(0.11, 0.52)
     th = [col(7.1, 7.2), col(8.1, 8.2), col(9.1, 9.2), col(6.1, 6.2)]
     jobs = [
@@ -103,7 +108,7 @@ def _wrap(orig):
         STATE['depth'] += 1
         try:
             STATE['phase'] = 'decoy'
-            decoys()
+            decoys(coordinates[0] if coordinates and _concrete(coordinates) else None)
             if _concrete(coordinates):
                 _MEMO.clear()
                 for ph in ('warm-same', 'warm-other'):
@@ -144,6 +149,35 @@ def _wrap(orig):
                                           parameters={k: v for k, v in self.__dict__.items() if isinstance(v, (int, float))},
                                           coordinates=[c.detach().reshape(-1).tolist() for c in coordinates],
                                           with_grad=out.detach().reshape(-1).tolist()[:8], without_grad=alt.detach().reshape(-1).tolist()[:8]))
+                    # coordinate buffers that do not require grad, refilled in place and used again: the answer is about the values
+                    # they hold now; and a result handed out earlier is not overwritten by a later call
+                    STATE['phase'] = 'refill'
+                    bufs = [c.detach().clone() for c in coordinates]
+                    first = orig(self, net, *bufs)
+                    first_copy = first.detach().clone()
+                    with torch.no_grad():
+                        for b_ in bufs:
+                            b_.add_(0.0625)
+                    again = orig(self, net, *bufs)
+                    fresh = orig(self, net, *[b_.clone() for b_ in bufs])
+                    if again.shape != fresh.shape or not torch.allclose(again.detach(), fresh.detach(), rtol=1e-12, atol=1e-12 * scale):
+                        FAILS.append(dict(condition=type(self).__name__, violated='coordinate buffers refilled in place: enforce() still answers for the '
+                                          'values they held before', parameters={k: v for k, v in self.__dict__.items() if isinstance(v, (int, float))},
+                                          refilled=again.detach().reshape(-1).tolist()[:8], fresh_tensors=fresh.detach().reshape(-1).tolist()[:8]))
+                    if not torch.equal(first.detach(), first_copy):
+                        FAILS.append(dict(condition=type(self).__name__, violated='a result returned by an earlier enforce() call was overwritten by a later call'))
+                    # the same inside torch.no_grad() (plotting / inference): an earlier result must survive later calls
+                    try:
+                        with torch.no_grad():
+                            r1 = orig(self, net, *[c.detach().clone() for c in coordinates])
+                            keep = r1.clone()
+                            orig(self, net, *[c.detach().clone() + 0.25 for c in coordinates])
+                            ok_ = torch.equal(r1, keep)
+                    except Exception:
+                        ok_ = True          # conditions that differentiate the network internally cannot run under no_grad: nothing to observe
+                    if not ok_:
+                        FAILS.append(dict(condition=type(self).__name__, violated='inside torch.no_grad(): a result returned by an earlier enforce() call '
+                                          'was overwritten by a later call on other coordinates'))
                     # a network that overwrites its input batch (in-place normalisation): the batch handed to the network is private
                     # to enforce(), so the coordinates the condition itself reads are untouched
                     STATE['phase'] = 'destroy-input'
@@ -215,7 +249,10 @@ def _wrap_init(orig):
                 except Exception:
                     done = False
             if not done:
-                self.__dict__.clear()
+                try:
+                    self.__dict__.clear()
+                except Exception:
+                    pass
                 orig(self, *args, **kwargs)
         finally:
             STATE['init_depth'] = 0
